@@ -73,7 +73,7 @@ pub fn run(ctx: &Ctx) -> i32 {
                         case: case(),
                         sig: format!("pixel-mismatch:mode{}", m),
                         detail: format!("{} pixels differ; first: {} -> library {:?}, Aseprite reference {:?}", nbad, describe_px(*m, sp.b[k], sp.s[k], sp.lo, sp.co), got[k].to_le_bytes(), expect[k].to_le_bytes()),
-                        bytes: Some(sprite(*m, &Spec { w: 1, h: 1, b: vec![sp.b[k]], s: vec![sp.s[k]], lo: sp.lo, co: sp.co, via_tilemap: sp.via_tilemap, flags: sp.flags, pad: 0 })),
+                        bytes: Some(sprite(*m, &Spec { w: 1, h: 1, b: vec![sp.b[k]], s: vec![sp.s[k]], lo: sp.lo, co: sp.co, via_tilemap: sp.via_tilemap, flags: sp.flags, pad: 0, hflags: 1 })),
                         extra: json!({"mode": m, "backdrop": sp.b[k].to_le_bytes(), "source": sp.s[k].to_le_bytes(), "layer_opacity": sp.lo, "cel_opacity": sp.co, "library": got[k].to_le_bytes(), "reference": expect[k].to_le_bytes(), "replay_file_is": "a 1x1 two-layer sprite with exactly this pixel pair"}),
                     });
                 }
